@@ -24,6 +24,7 @@ class P(Prop):
         ("TracklibVerif.Props.C17", "TV.C17.abscurv_geometric", "over an ordered field with a genuine sqrt: each increment is the non-negative d with d*d = dx^2+dy^2, the column is non-decreasing and ends at the planimetric length"),
         ("TracklibVerif.Props.C17", "TV.C17.speed_def", "speed[i] for n>=2: one-sided at both ends, neighbours (i-1,i+1) inside, NaN exactly when the elapsed time is zero"),
         ("TracklibVerif.Props.C17", "TV.C17.pure", "computeAbsCurv / estimate_speed leave positions, timestamps and every other feature unchanged"),
+        ("TracklibVerif.Props.C17", "TV.C17.only_adds", "on a fresh track the feature table only gains one appended column (abs_curv resp. speed); the temporary ds is removed"),
         ("TracklibVerif.Props.C17", "TV.C17.idempotent", "a second computeAbsCurv / estimate_speed returns the same column and leaves the track as it was"),
     ]
     partial = []
